@@ -393,6 +393,40 @@ def scalar_saturation(ctx):
             rep.ok('CX-13', name, 'no sign / magnitude class of (re, im, scalar) turns a finite result into NaN or an infinity (%d classes, %d decided)' % (total, decided),
                    loc=loc, sample={'fn': name, 'classes': total, 'decided': decided})
     rep.floor('CX-13', 8)
+    # ---- the complex product: the four-product form against whatever the code does (a three-product form adds components first and
+    # overflows for finite products)
+    fn = ctx.fn('complex', 'a_complex_mul_')
+    if fn is None:
+        rep.unk('CX-13', 'a_complex_mul_', 'anchor vanished')
+        return
+    loc = fn.loc(fn.entry.instrs[0])
+    E4 = (-1074, -600, -10, -2, 0, 600, 1023)
+    if ctx.tier == 'thorough':
+        E4 = (-1074, -1022, -600, -10, -2, 0, 2, 600, 1023)
+    c4 = [mag.binade(e, s_) for e in E4 for s_ in (1, -1)] + [mag.Z]
+    probe = {('ctx', 0): mag.binade(0), ('ctx', 1): mag.binade(0)}
+    if len(fn.params) != 3 or mag.run(fn, [('ptr', 'ctx'), mag.binade(0), mag.binade(0)], None, 0, probe) is None:
+        rep.unk('CX-13', 'a_complex_mul_', 'not straight-line arithmetic over *ctx and the factor', loc=loc)
+        return
+    worst, total, decided = [], 0, 0
+    for a, b, c, d in itertools.product(c4, c4, c4, c4):
+        mem = {('ctx', 0): a, ('ctx', 1): b}
+        mag.run(fn, [('ptr', 'ctx'), c, d], None, 0, mem)
+        want = (mag.sub(mag.mul(a, c), mag.mul(b, d)), mag.add(mag.mul(a, d), mag.mul(b, c)))
+        got = (mem[('ctx', 0)], mem[('ctx', 1)])
+        total += 1
+        decided += mag.TOP not in got
+        for k in (0, 1):
+            if (got[k] == mag.NAN or got[k][0] == 'inf') and want[k][0] in ('m', 'z'):
+                worst.append((a, b, c, d, k, got[k], want[k]))
+                break
+    if worst:
+        a, b, c, d, k, g, w = worst[0]
+        rep.bad('CX-13', 'a_complex_mul_', 'for every (%s, %s) times (%s, %s) the %s part becomes %s; ac - bd / ad + bc itself gives %s (%d of %d sign / magnitude classes)' % (
+            mag.show(a), mag.show(b), mag.show(c), mag.show(d), ('real', 'imaginary')[k], mag.show(g), mag.show(w), len(worst), total), loc=loc, key='a_complex_mul_: saturation')
+    else:
+        rep.ok('CX-13', 'a_complex_mul_', 'no sign / magnitude class of the two factors turns a finite component of the product into NaN or an infinity (%d classes, %d decided)' % (total, decided),
+               loc=loc, sample={'fn': 'a_complex_mul_', 'classes': total, 'decided': decided})
 
 
 def field(ctx):
